@@ -1,4 +1,5 @@
 import PhyloModel.Props.C15
+import PhyloModel.Props.C15Arena
 import PhyloModel.Props.C15Clamp
 import PhyloModel.Props.C15Det
 #print axioms C15.update_is_average_linkage
@@ -10,6 +11,16 @@ import PhyloModel.Props.C15Det
 #print axioms C15.step_total
 #print axioms C15.upgma_tree
 #print axioms C15.upgma_recovers_ultrametric
+#print axioms C15.upgmaShape_same_outcome
+#print axioms C15.upgmaShape_ok_iff
+#print axioms C15.upgmaShape_succeeds
+#print axioms C15.merge_never_refuses
+#print axioms C15.invariant_initially
+#print axioms C15.merge_children_order
+#print axioms C15.upgmaShape_good
+#print axioms C15.upgmaShape_represents
+#print axioms C15.upgmaShape_slots
+#print axioms C15.upgmaShape_leaves
 #print axioms C15.upgmaC_eq_upgma
 #print axioms C15.stepC_eq_step
 #print axioms C15.upgmaC_tree
